@@ -5,17 +5,17 @@ CONSTANTS
   BlockOf <- BlockL1
   LockPg = 0
   AllowWAL = FALSE
-  FinModes = {"DELETE", "TRUNCATE", "PERSIST"}
+  FinModes = {"DELETE", "PERSIST"}
   AllowSpill = TRUE
-  AllowBeyond = TRUE
+  AllowBeyond = FALSE
   FixBeyond = TRUE
-  AllowNoSync = TRUE
+  AllowNoSync = FALSE
   FixOOB = TRUE
   FixFirstRb = TRUE
   AllowCrash = FALSE
   FixJournalNoPS = TRUE
   FixModeOnOpen = TRUE
-  AllowFreeReuse = FALSE
+  AllowFreeReuse = TRUE
   AllowFromWal = FALSE
   FixModeSwitch = TRUE
   AllowDropDB = FALSE
